@@ -20,6 +20,8 @@ import time
 import zlib
 from fractions import Fraction
 
+import numpy as np
+
 sys.set_int_max_str_digits(0)
 VERIF = os.path.dirname(os.path.dirname(os.path.abspath(__file__)))
 LEAN = os.path.join(VERIF, "lean")
@@ -260,6 +262,40 @@ def repo_state():
     except Exception:
         head, dirty = "unknown", True
     return {"head": head, "dirty": dirty}
+
+
+def poison(obj, _depth=0):
+    """overwrite, in place, a mutable result a library call handed out - after the check has extracted what it
+    needs.  A caller owns what it was given and may change it; if the library kept a reference (a cache entry, a
+    default argument, a module constant), its later answers are corrupted and the ordinary judgement of those
+    answers reports it.  Returns nothing."""
+    if _depth > 3 or obj is None:
+        return
+    if isinstance(obj, np.ndarray):
+        if obj.size and obj.flags.writeable and obj.dtype.kind in "fci":
+            try:
+                obj += (7 if obj.dtype.kind == "i" else 0.7319)
+            except Exception:  # noqa
+                pass
+    elif isinstance(obj, list):
+        for i, v in enumerate(obj):
+            if isinstance(v, (int, float, complex, np.number)) and not isinstance(v, bool):
+                obj[i] = v + 0.7319
+            else:
+                poison(v, _depth + 1)
+    elif isinstance(obj, dict):
+        for v in obj.values():
+            poison(v, _depth + 1)
+    elif isinstance(obj, tuple):
+        for v in obj:
+            poison(v, _depth + 1)
+    elif hasattr(obj, "IPoly") and hasattr(obj, "XPoly"):
+        poison(obj.IPoly, _depth + 1)
+        poison(obj.XPoly, _depth + 1)
+    elif hasattr(obj, "coefs"):
+        poison(obj.coefs, _depth + 1)
+    elif hasattr(obj, "coef"):
+        poison(obj.coef, _depth + 1)
 
 
 @contextlib.contextmanager
